@@ -56,6 +56,20 @@ pub fn dom_drivers(out: &mut Out, doc: &[u8], mutated: bool) {
     out.case("dump", &[&h, "Deserializer::from_json(&Bytes)"], &g(guarded(|| sonic_rs::Deserializer::from_json(&b).deserialize::<Value>().map(|v| dump::dump(&v)))), nt);
     // configurations
     out.case("dumpraw", &[&h, "use_rawnumber"], &g(guarded(|| sonic_rs::Deserializer::from_slice(doc).use_rawnumber().deserialize::<Value>().map(|v| dump::dump(&v)))), nt);
+    let mut w2 = b"[ 1,".to_vec();
+    w2.extend_from_slice(doc);
+    w2.push(b']');
+    out.case("dumpraw", &[&h, "use_rawnumber, element of Vec<Value> (copying)"], &g(guarded(|| sonic_rs::Deserializer::from_slice(&w2).use_rawnumber().deserialize::<Vec<Value>>().map(|v| dump::dump(&v[1])))), nt);
+    let mut w3 = b"null ".to_vec();
+    w3.extend_from_slice(doc);
+    out.case("dumpraw", &[&h, "use_rawnumber, second document of a stream"], &g(guarded(|| {
+        let mut st = sonic_rs::Deserializer::from_slice(&w3).use_rawnumber().into_stream::<Value>();
+        let _ = st.next();
+        match st.next() {
+            Some(r) => r.map(|v| dump::dump(&v)),
+            None => Ok("end".into()),
+        }
+    })), nt);
     out.case("dump", &[&h, "utf8_lossy on valid text"], &g(guarded(|| sonic_rs::Deserializer::from_slice(doc).utf8_lossy().deserialize::<Value>().map(|v| dump::dump(&v)))), nt);
     // a clone and a subtree clone denote the same tree
     out.case("dump", &[&h, "clone of the parsed value"], &g(guarded(|| sonic_rs::from_slice::<Value>(doc).map(|v| dump::dump(&v.clone())))), nt);
@@ -199,6 +213,46 @@ pub fn lazy_cases(out: &mut Out, doc: &[u8], path: &[PathElem], rng: &mut Rng) {
         let v2: Value = sonic_rs::from_str(&sonic_rs::to_string(&o).unwrap()).unwrap();
         if v2 == v { accessors(&sonic_rs::from_slice::<OwnedLazyValue>(&raw).unwrap()) } else { "to_lazyvalue changed the value".into() }
     })), nt);
+    // the unchecked routes
+    if let Ok(lu) = unsafe { sonic_rs::get_unchecked(doc, p.iter()) } {
+        let hu = hex(lu.as_raw_str().as_bytes());
+        out.case("lazyacc", &[&hu, "LazyValue from get_unchecked"], &pg(guarded(|| accessors(&lu))), nt);
+        out.case("lazyacc", &[&hu, "OwnedLazyValue from LazyValue (get_unchecked)"], &pg(guarded(|| accessors(&OwnedLazyValue::from(lu.clone())))), nt);
+    }
+    // children handed out by the iterators (checked, unchecked, into_*_iter): each is a lazy value of its own raw text
+    {
+        let mut kids: Vec<(String, LazyValue)> = Vec::new();
+        if lv.is_array() {
+            for x in sonic_rs::to_array_iter(&raw[..]).flatten() {
+                kids.push(("to_array_iter".into(), x));
+            }
+            for x in unsafe { sonic_rs::to_array_iter_unchecked(&raw[..]) }.flatten() {
+                kids.push(("to_array_iter_unchecked".into(), x));
+            }
+            if let Some(it) = lv.clone().into_array_iter() {
+                for x in it.flatten() {
+                    kids.push(("into_array_iter".into(), x));
+                }
+            }
+        } else if lv.is_object() {
+            for (_, x) in sonic_rs::to_object_iter(&raw[..]).flatten() {
+                kids.push(("to_object_iter".into(), x));
+            }
+            for (_, x) in unsafe { sonic_rs::to_object_iter_unchecked(&raw[..]) }.flatten() {
+                kids.push(("to_object_iter_unchecked".into(), x));
+            }
+            if let Some(it) = lv.clone().into_object_iter() {
+                for (_, x) in it.flatten() {
+                    kids.push(("into_object_iter".into(), x));
+                }
+            }
+        }
+        for (route, k) in kids.into_iter().take(24) {
+            let hk = hex(k.as_raw_str().as_bytes());
+            out.case("lazyacc", &[&hk, "child LazyValue", &route], &pg(guarded(|| accessors(&k))), true);
+            out.case("lazyacc", &[&hk, "child OwnedLazyValue::from", &route], &pg(guarded(|| accessors(&OwnedLazyValue::from(k.clone())))), true);
+        }
+    }
     // verbatim serialization
     out.case("echo", &[&h, "to_string(LazyValue)"], &pg(guarded(|| hex(sonic_rs::to_string(&lv).unwrap_or_default().as_bytes()))), nt);
     out.case("echo", &[&h, "to_string(OwnedLazyValue raw)"], &pg(guarded(|| hex(sonic_rs::to_string(&sonic_rs::from_slice::<OwnedLazyValue>(&raw).unwrap()).unwrap_or_default().as_bytes()))), nt);
@@ -256,6 +310,29 @@ pub fn lazy_cases(out: &mut Out, doc: &[u8], path: &[PathElem], rng: &mut Rng) {
     }
 }
 
+/// write through get_mut(key) on an owned-lazy object; duplicates allowed: the first member is addressed
+pub fn lazy_object_mutation(out: &mut Out, raw: &[u8], key: &str) {
+    let h = hex(raw);
+    let r = guarded(|| -> Option<(String, Option<String>)> {
+        let mut o: OwnedLazyValue = sonic_rs::from_slice(raw).ok()?;
+        if !o.is_object() {
+            return None;
+        }
+        let newv: OwnedLazyValue = sonic_rs::from_str("{\"new\":[1,\"x\"]}").unwrap();
+        let before_get = o.get(key).map(|v| sonic_rs::to_string(v).unwrap_or_default());
+        match o.get_mut(key) {
+            Some(slot) => *slot = newv,
+            None => return Some(("absent".into(), before_get)),
+        }
+        Some((sonic_rs::to_string(&o).unwrap_or_default(), before_get))
+    });
+    match r {
+        Ok(Some((text, _))) => out.case("lazymutobj", &[&h, &hex(key.as_bytes()), &hex(text.as_bytes())], "ok", true),
+        Ok(None) => {}
+        Err(p) => out.case("lazymutobj", &[&h, &hex(key.as_bytes()), ""], &format!("panic:{p}"), true),
+    }
+}
+
 fn walk_owned(o: &OwnedLazyValue, s: &mut String) {
     if let Some(a) = o.as_array() {
         s.push('[');
@@ -303,6 +380,25 @@ pub fn run_c13(out: &mut Out, tier: &str, seed: u64) {
         for _ in 0..paths.len().min(5) {
             let p = paths[rng.below(paths.len())].clone();
             lazy_cases(out, &doc, &p, &mut rng);
+        }
+    }
+    // objects with duplicate names: get and get_mut address the first member
+    let dcfg = Cfg { dup_free: false, max_depth: 2, ..Cfg::default() };
+    for _ in 0..(ndocs / 2) {
+        let gt = gen::gen_doc(&mut rng, &dcfg);
+        if let gen::G::Obj(ms) = &gt {
+            let doc = gen::render_doc(&gt, &mut rng, &dcfg);
+            let mut ms2 = ms.clone();
+            // force a duplicate in half of the cases
+            let mut doc = doc;
+            if !ms2.is_empty() && rng.chance(1, 2) {
+                let dup = ms2[rng.below(ms2.len())].clone();
+                ms2.push((dup.0.clone(), dup.1.clone(), gen::G::Num("424242".into())));
+                doc = gen::render_doc(&gen::G::Obj(ms2.clone()), &mut rng, &dcfg);
+            }
+            let key = if ms2.is_empty() || rng.chance(1, 6) { "absent".to_string() } else { ms2[rng.below(ms2.len())].0.clone() };
+            out.count("objmutation");
+            lazy_object_mutation(out, &doc, &key);
         }
     }
     // every scalar literal directly
